@@ -183,6 +183,53 @@ func ruleMergerGuards(r *Run) {
 			"mergeCustomObjectFields(a→b) and (b→a) both dominate every successful return",
 			"the overlap classification of a shared type is not performed unconditionally in both directions before the merge is accepted: acceptance then depends on the order of the services")
 	}
+	// Node types never share a non-id field: the test precedes every accept
+	mf := r.Anchor(rule, "merger.mergeCustomObjectFields")
+	if mf != nil {
+		var nodeCall *ssa.Call
+		for _, ins := range allInstrs(mf) {
+			if c, ok := ins.(*ssa.Call); ok && strings.HasSuffix(calleeName(&c.Call), "merger.isImplementsNodeInterface") {
+				nodeCall = c
+			}
+		}
+		if nodeCall == nil {
+			r.Bad(rule, fnName(mf), "Node overlap test", r.P.pos(mf.Pos()), "mergeCustomObjectFields no longer asks whether the shared type implements Node")
+		} else {
+			okDom := true
+			var badRet *ssa.Return
+			for _, ret := range returnsOf(mf) {
+				vals := retVals(ret)
+				if isNilConst(unwrap(vals[len(vals)-1])) && !instrDominates(nodeCall, ret) {
+					okDom = false
+					badRet = ret
+				}
+			}
+			site := r.P.pos(nodeCall.Pos())
+			if badRet != nil {
+				site = r.P.pos(retPos(badRet))
+			}
+			r.Check(okDom, rule, fnName(mf), "Node overlap test precedes every accept", site,
+				"every successful return is reached only after the `implements Node && overlapping` test",
+				"a shared type can be accepted (e.g. as a complete copy) on a path that skipped the `implements Node && some field overlaps` test: a Node type whose non-id field is declared by two services is merged silently and the field is routed to whichever service comes last")
+			// and the test's positive side is an error
+			errSide := false
+			for _, ref := range *nodeCall.Referrers() {
+				if iff, ok := ref.(*ssa.If); ok {
+					for _, b := range mf.Blocks {
+						if len(iff.Block().Succs[0].Preds) == 1 && (b == iff.Block().Succs[0] || iff.Block().Succs[0].Dominates(b)) {
+							if ret, ok := b.Instrs[len(b.Instrs)-1].(*ssa.Return); ok {
+								vals := retVals(ret)
+								if !isNilConst(unwrap(vals[len(vals)-1])) {
+									errSide = true
+								}
+							}
+						}
+					}
+				}
+			}
+			r.Check(errSide, rule, fnName(mf), "Node overlap is an error", site, "an error is returned under `implements Node && overlapping`", "the Node-overlap test no longer leads to an error")
+		}
+	}
 	// root overlap
 	mr := r.Anchor(rule, "merger.mergeRootObjects")
 	if mr != nil {
@@ -393,6 +440,31 @@ func ruleNodeFlag(r *Run) {
 		}
 	}
 	r.AtLeast(rule, "implements-Node tests in SetFromSchema", n, 1)
+	// what is routed depends on the schema being recorded, never on what the table holds already
+	if len(fn.Params) > 0 {
+		recv := fn.Params[0]
+		for _, ins := range allInstrs(fn) {
+			iff, ok := ins.(*ssa.If)
+			if !ok {
+				continue
+			}
+			dep := false
+			for _, i2 := range allInstrs(fn) {
+				switch x := i2.(type) {
+				case *ssa.Lookup:
+					if x.X == ssa.Value(recv) && dependsOn(iff.Cond, x) {
+						dep = true
+					}
+				case *ssa.Call:
+					if len(x.Call.Args) > 0 && x.Call.Args[0] == ssa.Value(recv) && dependsOn(iff.Cond, x) {
+						dep = true
+					}
+				}
+			}
+			r.Check(!dep, "R13q", fnName(fn), "routing decision independent of table state", r.P.pos(iff.Cond.Pos()),
+				"the branch depends on the schema being recorded only", "whether a type/field of this service is recorded depends on what the routing table already contains: fields that a later service adds to a type already seen (a shared value type extended by another service) are left without a route")
+		}
+	}
 	// the merger's own predicate has the same shape
 	p := r.Anchor(rule, "merger.isImplementsNodeInterface")
 	if p != nil {
